@@ -1541,6 +1541,11 @@ fn mode_c19(r: &mut SplitMix64, n: usize) {
         if edges.is_empty() {
             edges.push(((0, 1), 1.0));
         }
+        // parallel edges (the same pair listed twice, also with the same coupling) are two terms of the energy
+        if r.chance(1, 3) {
+            let e = *r.pick(&edges);
+            edges.push(if r.coin() { e } else { (((e.0).1, (e.0).0), e.1) });
+        }
         let biases: Vec<f64> = (0..nv).map(|_| *r.pick(&[0.0, 0.0, 0.5, -0.5, 1.0, -0.25])).collect();
         let beta = gen_beta(r);
         let st = gen_state(r, nv);
@@ -1876,7 +1881,7 @@ fn diff_cluster_ising(s: &IsingSpec, g: &G, beta: f64) {
         c.eq("C09 longitudinal-field operators untouched by the cluster step", &long_ops(&scan(&mb), first_long), &long_ops(&before, first_long));
         // the decomposition of the result has the same number of clusters
         let (mut m2, mut s2, mut r2) = (mb.clone(), sb.clone(), SplitMix64::new(1));
-        let n2 = c.call("second decomposition", || m2.flip_each_cluster_ising_symmetry_rng(0.0, &mut r2, &mut s2));
+        let n2 = pooled(&mut c, "flip_each_cluster_ising_symmetry_rng(prob 0)", &mut m2, |m| m.flip_each_cluster_ising_symmetry_rng(0.0, &mut r2, &mut s2));
         if let Some(n2) = n2 {
             c.eq("C09 the decomposition of the result finds the same number of clusters", &n2, &nb);
             c.eq("C09 probability 0 flips nothing", &show_slots(&m2), &show_slots(&mb));
@@ -1957,12 +1962,14 @@ fn diff_rvb_ising(s: &IsingSpec, g: &G, beta: f64, k: usize) {
 
 /// thread_rng convenience wrappers applied IN PLACE through `get_manager_mut` / `state_mut`; the sampler must stay
 /// consistent and continue to work
-fn inplace_ising(r: &mut SplitMix64, s: &IsingSpec, g: &mut G, beta: f64, rounds: usize) {
-    let ghost = g.clone();
+fn inplace_ising(r: &mut SplitMix64, s: &IsingSpec, g0: &G, beta: f64, rounds: usize) {
+    let ghost = g0.clone();
     let vars: Vec<usize> = (0..s.nvars).collect();
     let ham = IsingHam { g: &ghost, vars: &vars };
     let bw = ising_bond_weights(&ham);
     for _ in 0..rounds {
+        // (a fresh copy per round: what is printed as the input never depends on thread_rng)
+        let g = &mut g0.clone();
         let which = r.below(4);
         let mut c = Chk::new();
         let before = scan(g.get_manager_ref());
@@ -2196,12 +2203,12 @@ fn diff_generic(mode: &str, r: &mut SplitMix64, gs: &GenSpec, q: &Q, beta: f64, 
 
 fn mode_c06(r: &mut SplitMix64, n: usize) {
     for _ in 0..n {
-        let (s, mut g, beta) = warm_ising(r, None);
+        let (s, g, beta) = warm_ising(r, None);
         diff_diag_ising(&s, &g, beta);
         diff_heatbath_ising("c06", &s, &g, beta, false);
-        let k = r.range(1, 4) as usize;
+        let k = r.range(0, 4) as usize;
         diff_rvb_ising(&s, &g, beta, k);
-        inplace_ising(r, &s, &mut g, beta, 3);
+        inplace_ising(r, &s, &g, beta, 3);
     }
     for _ in 0..n {
         let (gs, q, beta) = warm_generic(r);
@@ -2599,6 +2606,41 @@ fn accessor_checks(r: &mut SplitMix64, c: &mut Chk, m: &mut FastOps, state: &[bo
             return;
         }
     }
+    // op-only sweeps (FastOps overrides of the provided methods): visiting without changing anything leaves container and pool alone
+    hits(&["DiagonalUpdater::mutate_ops", "DiagonalSubsection::mutate_subsection_ops", "DiagonalUpdater::iterate_ops"]);
+    if !s.is_empty() {
+        let j0 = js(m);
+        let len = s.len();
+        let seen = pooled(c, "mutate_ops (no change)", m, |mm| {
+            mm.mutate_ops(0, len, Vec::<usize>::new(), |_, _, p, mut t| {
+                t.push(p);
+                (None, t)
+            })
+        });
+        c.eq("C11 mutate_ops visits exactly the occupied slots in order", &seen, &Some(occ.clone()));
+        let sub: Vec<usize> = (0..nvars).filter(|_| r.coin()).collect();
+        let e: Vec<usize> = s.iter().flatten().filter(|o| o.vars.iter().any(|v| sub.contains(v))).map(|o| o.p).collect();
+        let seen = pooled(c, "mutate_subsection_ops (sub-variables, no change)", m, |mm| {
+            let args = mm.get_empty_args(SubvarAccess::Varlist(&sub));
+            let args = mm.fill_args_at_p(0, args);
+            mm.mutate_subsection_ops(
+                0,
+                len,
+                Vec::<usize>::new(),
+                |_, _, p, mut t| {
+                    t.push(p);
+                    (None, t)
+                },
+                Some(args),
+            )
+        });
+        c.eq(&format!("C11 mutate_subsection_ops over variables {:?} visits the ops touching them, in order", sub), &seen, &Some(e));
+        c.eq("C11 iterate_ops", &m.iterate_ops(0, len, vec![], |_, _, p, mut t: Vec<usize>| {
+            t.push(p);
+            t
+        }), &occ);
+        c.ck(js(m) == j0, || "C11 visiting sweeps changed the container".into());
+    }
     // rebuild from the operator list: no per-bond counters, same answers
     hits(&["FastOpsTemplate::new_from_ops", "FastOpsTemplate::clone", "FastOpsTemplate::serde", "FastOpsTemplate::fmt", "OpContainer::itime_fold"]);
     let ops: Vec<(usize, FastOp)> = (0..s.len()).filter_map(|p| m.get_pth(p).map(|o| (p, o.clone()))).collect();
@@ -2646,6 +2688,13 @@ fn mode_c11(r: &mut SplitMix64, n: usize) {
             let b = <FastOps as OpContainerConstructor>::new(nv);
             c.res(json_same("new vs new_from_nvars", &js(&FastOps::new_from_nvars(nv)), &js(&b), &[]));
             c.ck(js(&b)["bond_counters"].is_null(), || "new(nvars) must not allocate bond counters".into());
+            // an empty operator list is a legal argument of new_from_ops: same container as new_from_nvars, full pool
+            hit("FastOpsTemplate::new_from_ops");
+            pool_begin();
+            if let Some(e) = c.call("new_from_ops(empty)", || FastOps::new_from_ops(nv, Vec::<(usize, FastOp)>::new())) {
+                c.res(pool_end("new_from_ops(empty)"));
+                c.res(json_same("C18/C11 new_from_ops(empty) vs new_from_nvars", &js(&FastOps::new_from_nvars(nv)), &js(&e), &[]));
+            }
         }
         case(true, "c11 container-constructors", c.done());
     }
@@ -2969,6 +3018,13 @@ fn mode_c10(r: &mut SplitMix64, n: usize) {
         c.eq("C10 ham_eq(A, B) = all parameters equal", &ga.ham_eq(&gb), &same_model);
         c.eq("C10 ham_eq symmetric", &gb.ham_eq(&ga), &same_model);
         c.ck(ga.ham_eq(&ga), || "ham_eq not reflexive".into());
+        {
+            let tiny = |gamma: f64, h: f64| G::new_with_rng(s.edges.clone(), gamma, h, 2, SplitMix64::new(1), None);
+            let (u, v) = (2f64.powi(-60), 2f64.powi(-61));
+            c.ck(!tiny(u, 0.0).ham_eq(&tiny(v, 0.0)) && tiny(u, 0.0).make_haminfo() != tiny(v, 0.0).make_haminfo(), || "C10 ham_eq true for transverse fields 2^-60 and 2^-61".into());
+            c.ck(!tiny(1.0, u).ham_eq(&tiny(1.0, v)) && tiny(1.0, u).make_haminfo() != tiny(1.0, v).make_haminfo(), || "C10 ham_eq true for longitudinal fields 2^-60 and 2^-61".into());
+            c.ck(tiny(u, v).ham_eq(&tiny(u, v)), || "ham_eq false for equal tiny fields".into());
+        }
         c.eq("can_swap_graphs = can_swap_managers", &ga.can_swap_graphs(&gb), &ga.can_swap_managers(&gb));
         c.ck(ga.can_swap_graphs(&gb).is_ok(), || format!("C10 replicas of one lattice with equal signs refused: {:?}", ga.can_swap_graphs(&gb)));
         // a replica with one coupling sign flipped / another lattice must be refused by both entry points
@@ -3046,6 +3102,9 @@ fn mode_c10(r: &mut SplitMix64, n: usize) {
         c.eq("can_swap_graphs = can_swap_managers (scaled bonds)", &qa.can_swap_graphs(&qc), &qa.can_swap_managers(&qc));
         c.ck(qa.can_swap_graphs(&qc).is_err(), || "C10 unequal bonds accepted".into());
         let na = QmcStepper::get_n(&qa);
+        for q in [&qa, &qb] {
+            c.eq("C10 get_op_cutoff = get_cutoff (generic, after steps)", &SwapManagers::get_op_cutoff(q), &q.get_cutoff());
+        }
         if let Some(got) = c.call("relative_weight", || qa.relative_weight(&qc)) {
             c.ck(close(got, 2f64.powi(na as i32)), || format!("C10 relative_weight against bonds scaled by 2 = {} expected 2^{}", got, na));
         }
@@ -3137,10 +3196,22 @@ fn mode_c10(r: &mut SplitMix64, n: usize) {
             c.ck(ta.add_qmc_stepper(mk(), betas[k]).is_ok() && tb.add_qmc_stepper(mk(), betas[k]).is_ok(), || "add_qmc_stepper refused a scaled replica".into());
         }
         c.eq("num_graphs", &ta.num_graphs(), &nrep);
-        let originals: Vec<Value> = ta.graph_ref().iter().map(|(g, _)| js(g)).collect();
-        let ghosts: Vec<G> = ta.graph_ref().iter().map(|(g, _)| g.clone()).collect();
+        let mut originals: Vec<Value> = ta.graph_ref().iter().map(|(g, _)| js(g)).collect();
+        let mut ghosts: Vec<G> = ta.graph_ref().iter().map(|(g, _)| g.clone()).collect();
+        let mut betas = betas;
+        let extend = r.coin();
+        let extra = (scale_spec(r, &s), gen_beta(r), r.next());
         let mut ok = true;
         for round in 0..4 {
+            if round == 2 && extend {
+                // the ladder grows after exchange steps have already run
+                let mk = || build_ising(&extra.0, 3, None, extra.2);
+                c.ck(ta.add_qmc_stepper(mk(), extra.1).is_ok() && tb.add_qmc_stepper(mk(), extra.1).is_ok(), || "add_qmc_stepper refused a scaled replica (late)".into());
+                originals.push(js(&mk()));
+                ghosts.push(mk());
+                betas.push(extra.1);
+            }
+            let nrep = ta.num_graphs();
             ok &= c
                 .call("timesteps + tempering_step", || {
                     ta.timesteps(2);
@@ -3194,7 +3265,7 @@ fn mode_c10(r: &mut SplitMix64, n: usize) {
             if let Some(t) = c.call("rng-less tuple snapshot", || {
                 let (st, rng, rngs): (SerializeTemperingContainer<FastOps>, SplitMix64, Vec<SplitMix64>) = ta.clone().into();
                 let n = st.num_graphs();
-                assert_eq!(n, nrep);
+                assert_eq!(n, ta.num_graphs());
                 assert!(format!("{:?}", st).contains("SerializeTemperingContainer"));
                 let st2: SerializeTemperingContainer<FastOps> = json_rt(&st).expect("snapshot round trip");
                 assert_eq!(js(&st2), js(&st));
@@ -3209,7 +3280,7 @@ fn mode_c10(r: &mut SplitMix64, n: usize) {
             let run = |t: &mut TC| {
                 t.timesteps(1);
                 t.tempering_step();
-                t.timesteps_sample(4, 2, 1)
+                t.timesteps_sample(8, 1, 1)
             };
             if let Some(base) = c.call("continue original", || run(&mut ta)) {
                 for (name, t) in copies.iter_mut() {
@@ -3225,11 +3296,12 @@ fn mode_c10(r: &mut SplitMix64, n: usize) {
             use rand::SeedableRng;
             let st: SerializeTemperingContainer<FastOps> = ta.clone().into();
             let st_b: SerializeTemperingContainer<FastOps> = ta.clone().into();
-            c.eq("SerializeTemperingContainer::num_graphs", &st.num_graphs(), &nrep);
+            let nrep_now = ta.num_graphs();
+            c.eq("SerializeTemperingContainer::num_graphs", &st.num_graphs(), &nrep_now);
             let gseed = r.next();
             let auto = c.call("into_tempering_container_gen_rngs", || st.into_tempering_container_gen_rngs::<SplitMix64, SmallRng>(SplitMix64::new(gseed)));
             let mut crng = SplitMix64::new(gseed);
-            let rngs: Vec<SmallRng> = (0..nrep).map(|_| SmallRng::seed_from_u64(crng.gen())).collect();
+            let rngs: Vec<SmallRng> = (0..nrep_now).map(|_| SmallRng::seed_from_u64(crng.gen())).collect();
             let mut manual = st_b.into_tempering_container_from_vec(crng, rngs);
             if let Some(mut auto) = auto {
                 let ra = c.call("continue gen_rngs", || {
@@ -3247,7 +3319,7 @@ fn mode_c10(r: &mut SplitMix64, n: usize) {
                 }
             }
         }
-        case(true, &input, c.done());
+        case(true, &format!("{} late_replica={}", input, extend), c.done());
 
         // thread_rng container and samplers: invariants only
         if it < 1 {
@@ -3316,7 +3388,14 @@ fn mode_c13(r: &mut SplitMix64, n: usize) {
         for _ in 0..r.range(0, 5) {
             g.timestep(beta);
         }
-        let input = format!("c13 ising-copies rvb={} hb={} {}", rvb, hb, ising_ctx(&s, &g, beta));
+        let (toggle, manual) = (r.chance(1, 3), r.chance(1, 3));
+        if toggle {
+            g.set_run_rvb(!rvb);
+        }
+        if manual {
+            g.single_rvb_sweep(Some(1));
+        }
+        let input = format!("c13 ising-copies rvb={} toggled={} manual_sweep={} hb={} {}", rvb, toggle, manual, hb, ising_ctx(&s, &g, beta));
         let mut c = Chk::new();
         hits(&[
             "QmcIsingGraph::clone",
@@ -3584,7 +3663,7 @@ impl Scratch for Vec<bool> {
         self.is_empty()
     }
     fn dirty(&mut self) {
-        self.push(true)
+        self.resize(5000, true)
     }
 }
 impl Scratch for Vec<usize> {
@@ -3592,7 +3671,7 @@ impl Scratch for Vec<usize> {
         self.is_empty()
     }
     fn dirty(&mut self) {
-        self.push(7)
+        self.resize(5000, 7)
     }
 }
 impl Scratch for Vec<Option<usize>> {
@@ -3600,7 +3679,7 @@ impl Scratch for Vec<Option<usize>> {
         self.is_empty()
     }
     fn dirty(&mut self) {
-        self.push(Some(7))
+        self.resize(5000, Some(7))
     }
 }
 impl Scratch for Vec<OpSide> {
@@ -3608,7 +3687,7 @@ impl Scratch for Vec<OpSide> {
         self.is_empty()
     }
     fn dirty(&mut self) {
-        self.push(OpSide::Inputs)
+        self.resize(5000, OpSide::Inputs)
     }
 }
 impl Scratch for Vec<(usize, OpSide)> {
@@ -3616,7 +3695,7 @@ impl Scratch for Vec<(usize, OpSide)> {
         self.is_empty()
     }
     fn dirty(&mut self) {
-        self.push((1, OpSide::Outputs))
+        self.resize(5000, (1, OpSide::Outputs))
     }
 }
 impl Scratch for Vec<f64> {
@@ -3624,7 +3703,7 @@ impl Scratch for Vec<f64> {
         self.is_empty()
     }
     fn dirty(&mut self) {
-        self.push(0.5)
+        self.resize(5000, 0.5)
     }
 }
 impl Scratch for BondContainer<usize> {
@@ -3910,6 +3989,33 @@ fn mode_c03(r: &mut SplitMix64, n: usize) {
                 break;
             }
         }
+        // weights that are not dyadic: after every key was taken out again, clear() leaves an EMPTY container (total exactly 0)
+        {
+            let mut f: BondContainer<usize> = Default::default();
+            let ws = [0.1, 0.3, 0.6, 0.7, 1.1, 1.4];
+            let keys: Vec<usize> = (0..r.range(2, 6) as usize).collect();
+            let mut order = keys.clone();
+            for k in keys.iter() {
+                f.insert(*k, *r.pick(&ws));
+            }
+            for i in (1..order.len()).rev() {
+                let j = r.below(i as u64 + 1) as usize;
+                order.swap(i, j);
+            }
+            let mut tr = vec![];
+            for k in order.iter() {
+                tr.push(format!("{}:{}", k, f.get_weight(k).unwrap()));
+                f.remove(k);
+            }
+            c.ck(f.is_empty() && f.get_total_weight() >= 0.0 && f.get_total_weight() < 1e-12, || format!("C03 total after removing everything ({}) = {}", tr.join(","), f.get_total_weight()));
+            f.clear();
+            c.ck(f.empty() && f.verif_is_clean(), || format!("C18 clear() after removing everything ({}) leaves total {}", tr.join(","), f.get_total_weight()));
+            let mut g: BondContainer<usize> = Default::default();
+            g.insert(2, 0.3);
+            g.insert(0, 0.7);
+            Reset::reset(&mut g);
+            c.ck(g.empty() && g.verif_is_clean(), || "C18 Reset::reset of a bond container".into());
+        }
         // copies
         let cl = bc.clone();
         c.ck(js(&cl) == js(&bc) && format!("{:?}", cl) == format!("{:?}", bc) && format!("{:?}", bc).contains("BondContainer"), || "BondContainer clone / Debug".into());
@@ -3939,7 +4045,7 @@ fn guarded(what: &str, f: impl FnOnce()) {
 fn main() {
     quiet_panics();
     let a = args();
-    let scale = if a.thorough { 40 } else { 6 };
+    let scale = if a.thorough { 80 } else { 10 };
     let table: Vec<(&str, fn(&mut SplitMix64, usize), usize)> = vec![
         ("c01", mode_c01, 10),
         ("c03", mode_c03, 12),
